@@ -3,6 +3,8 @@
 //! from one thread by what was actually read (no sleep is a synchronisation).
 //!
 //! usage: c10bb <scenario> <seed>
+//!   softstop_h2 : soft stop with HTTP/2 connections: (a) a request still uploading, (b) a complete response that is
+//!              window-blocked toward the client with the backend already gone, (c) an idle connection.
 //!   softstop : an HTTP request is in flight (the backend has read it and has not answered yet) when
 //!              SoftStop arrives; after the ack no new connection is served; the answer still reaches
 //!              the client; exactly one final OK with the request's id, only after the session ended;
@@ -31,6 +33,10 @@ use sozu_command_lib::{
     state::ConfigState,
 };
 use sozu_lib::server::Server;
+
+#[path = "../h2bb.rs"]
+#[allow(dead_code)]
+mod h2bb;
 
 type Main = Channel<WorkerRequest, WorkerResponse>;
 const DEADLINE: Duration = Duration::from_secs(15);
@@ -473,6 +479,166 @@ fn softstop(seed: u64) {
     println!("obs done");
 }
 
+fn data_on(fr: &[h2bb::Fr], sid: u32) -> (usize, bool) {
+    let mut n = 0;
+    let mut end = false;
+    for f in fr {
+        if f.sid == sid && f.t == h2bb::T_DATA {
+            n += f.payload.len();
+            end |= f.flags & 1 != 0;
+        }
+        if f.sid == sid && f.t == h2bb::T_HEADERS && f.flags & 1 != 0 {
+            end = true;
+        }
+    }
+    (n, end)
+}
+
+fn softstop_h2(seed: u64) {
+    use h2bb::*;
+    const BODY: usize = 5000;
+    const WINDOW: u32 = 1000;
+    let mut w = start_worker();
+    let front: SocketAddr = format!("127.0.0.1:{}", free_port()).parse().unwrap();
+    let back_l = TcpListener::bind("127.0.0.1:0").unwrap();
+    let back = back_l.local_addr().unwrap();
+    configure_https(&mut w, https_listener_config(front), front, back, false);
+    let mut seen: Vec<WorkerResponse> = vec![];
+    let mut pump = |w: &mut WorkerHandle, seen: &mut Vec<WorkerResponse>, wait: Duration, id: &str, st: Option<ResponseStatus>| -> bool {
+        let t0 = Instant::now();
+        loop {
+            if let Some(st) = st {
+                if seen.iter().any(|x| x.id == id && x.status == st as i32) {
+                    return true;
+                }
+            }
+            let left = wait.saturating_sub(t0.elapsed());
+            if left.is_zero() {
+                return false;
+            }
+            match w.channel.read_message_blocking_timeout(Some(left)) {
+                Ok(r) => seen.push(r),
+                Err(_) => return false,
+            }
+        }
+    };
+    pump(&mut w, &mut seen, Duration::from_millis(200), "", None);
+    if seen.iter().any(|x| x.status == ResponseStatus::Failure as i32) {
+        println!("note setup-failed {:?}", seen.iter().find(|x| x.status == ResponseStatus::Failure as i32).map(|x| x.message.clone()));
+        return;
+    }
+    // (b) a complete response, window-blocked toward the client, the backend already gone
+    let Some(mut pb) = Peer::connect(front) else { println!("note setup-failed h2 connect"); return };
+    if !pb.handshake(&[(4, WINDOW)]) {
+        println!("note setup-failed h2 handshake");
+        return;
+    }
+    pb.send(&frame(T_HEADERS, 0x5, 1, &request_block(false, "/b")));
+    let Some(mut b1) = accept(&back_l, DEADLINE) else { println!("note setup-failed backend accept (b)"); return };
+    let mut rq = vec![];
+    read_until(&mut b1, &mut rq, head_done);
+    let mut r = format!("HTTP/1.1 200 OK\r\nContent-Length: {BODY}\r\nConnection: close\r\n\r\n").into_bytes();
+    r.extend(std::iter::repeat(b'x').take(BODY));
+    let _ = b1.write_all(&r);
+    drop(b1);
+    let mut fb = pb.read_until(Duration::from_secs(5), |f| data_on(f, 1).0 >= WINDOW as usize);
+    // let the rest of the backend's bytes reach the worker (nothing more can reach the client: the window is shut)
+    fb.extend(pb.read_until(Duration::from_millis(300), |_| false));
+    if data_on(&fb, 1) != (WINDOW as usize, false) {
+        println!("note setup-failed (b): expected exactly the window's worth of DATA before the stop, got {:?}", data_on(&fb, 1));
+        return;
+    }
+    // (a) a request that is still uploading
+    let Some(mut pa) = Peer::connect(front) else { println!("note setup-failed h2 connect"); return };
+    if !pa.handshake(&[]) {
+        println!("note setup-failed h2 handshake");
+        return;
+    }
+    pa.send(&frame(T_HEADERS, 0x4, 1, &request_block(true, "/a")));
+    pa.send(&frame(T_DATA, 0, 1, &vec![b'u'; 100]));
+    let Some(mut b2) = accept(&back_l, DEADLINE) else { println!("note setup-failed backend accept (a)"); return };
+    let mut rq2 = vec![];
+    read_until(&mut b2, &mut rq2, head_done);
+    // (c) an idle connection
+    let Some(mut pc) = Peer::connect(front) else { println!("note setup-failed h2 connect"); return };
+    if !pc.handshake(&[]) {
+        println!("note setup-failed h2 handshake");
+        return;
+    }
+    // ---- the soft stop
+    let t_stop = Instant::now();
+    let _ = w.channel.write_message(&WorkerRequest { id: "SS".into(), content: Request { request_type: Some(RequestType::SoftStop(SoftStop {})) } });
+    if !pump(&mut w, &mut seen, DEADLINE, "SS", Some(ResponseStatus::Processing)) {
+        println!("viol softstop-no-ack no acknowledgement of SoftStop");
+    }
+    // announced at once on every connection
+    let mut fa = vec![];
+    let mut fc = vec![];
+    for (name, p, acc) in [("uploading", &mut pa, &mut fa), ("window-blocked", &mut pb, &mut fb), ("idle", &mut pc, &mut fc)] {
+        let got = p.read_until(Duration::from_secs(2), |f| f.iter().any(|x| x.t == T_GOAWAY));
+        if !got.iter().any(|x| x.t == T_GOAWAY) {
+            println!("viol h2-no-goaway the {name} HTTP/2 connection was not told about the soft stop (no GOAWAY within 2 s of the acknowledgement, connection closed: {})", p.closed);
+        }
+        acc.extend(got);
+    }
+    pump(&mut w, &mut seen, Duration::from_millis(100), "", None);
+    if seen.iter().any(|x| x.id == "SS" && x.status == ResponseStatus::Ok as i32) || !w.alive() {
+        println!("viol softstop-early-ok the worker finished its soft stop while HTTP/2 streams were still open (an upload in progress, a response owed to a client with a closed window)");
+    }
+    // a new connection is refused, a new stream on a told connection is not served
+    if TcpStream::connect_timeout(&front, Duration::from_secs(1)).is_ok() {
+        println!("viol accept-after-ack the https listener still takes connections after the SoftStop acknowledgement");
+    }
+    pa.send(&frame(T_HEADERS, 0x5, 3, &request_block(false, "/new")));
+    // ---- (a) completes: rest of the upload, the backend answers
+    pa.send(&frame(T_DATA, 0x1, 1, &vec![b'v'; 50]));
+    read_until(&mut b2, &mut rq2, |a| a.windows(5).any(|w| w == b"0\r\n\r\n") || a.ends_with(&[b'v'; 50]));
+    let body_a = 300 + (seed % 700) as usize;
+    let _ = b2.write_all(&resp(body_a));
+    fa.extend(pa.read_until(Duration::from_secs(5), |f| data_on(f, 1).1));
+    if data_on(&fa, 1) != (body_a, true) {
+        println!("viol request-cut the HTTP/2 request that was uploading at SoftStop did not complete: {} of {body_a} answer bytes, END_STREAM {} (connection closed: {})", data_on(&fa, 1).0, data_on(&fa, 1).1, pa.closed);
+    }
+    let uploaded = rq2.iter().filter(|c| **c == b'u' || **c == b'v').count();
+    if uploaded < 150 {
+        println!("viol request-cut the backend received {uploaded} of the 150 uploaded bytes");
+    }
+    if accept(&back_l, Duration::from_millis(100)).is_some() || fa.iter().any(|x| x.sid == 3 && x.t == T_HEADERS) {
+        println!("viol stream-after-ack a stream opened after the SoftStop acknowledgement and GOAWAY was served");
+    }
+    // ---- (b) completes: the client opens its window
+    if !w.alive() {
+        println!("viol softstop-early-exit the worker exited {} ms after SoftStop, before the window-blocked response was delivered", t_stop.elapsed().as_millis());
+    }
+    pb.send(&frame(T_WU, 0, 1, &1_000_000u32.to_be_bytes()));
+    fb.extend(pb.read_until(Duration::from_secs(4), |f| data_on(f, 1).1));
+    if data_on(&fb, 1) != (BODY, true) {
+        println!("viol request-cut the window-blocked HTTP/2 response was cut by the soft stop: {} of {BODY} body bytes reached the client, END_STREAM {} (connection closed: {})", data_on(&fb, 1).0, data_on(&fb, 1).1, pb.closed);
+    }
+    drop(pa);
+    drop(pb);
+    drop(pc);
+    drop(b2);
+    // ---- exactly one final OK, the worker exits
+    if !pump(&mut w, &mut seen, DEADLINE, "SS", Some(ResponseStatus::Ok)) {
+        println!("viol softstop-no-final no final OK for SoftStop after the last stream ended");
+    }
+    pump(&mut w, &mut seen, Duration::from_millis(300), "", None);
+    let n_ok = seen.iter().filter(|x| x.id == "SS" && x.status == ResponseStatus::Ok as i32).count();
+    if n_ok > 1 {
+        println!("viol softstop-twice {n_ok} final OK answers for one SoftStop");
+    }
+    let t0 = Instant::now();
+    while w.alive() && t0.elapsed() < DEADLINE {
+        std::thread::sleep(Duration::from_millis(10));
+    }
+    if w.alive() {
+        println!("viol softstop-no-exit the worker thread is still running after its final OK");
+    }
+    println!("note bb: softstop_h2 ok {n_ok} upload-body {body_a} window-body {:?} took {} ms", data_on(&fb, 1), t_stop.elapsed().as_millis());
+    println!("obs done");
+}
+
 fn handover(seed: u64) {
     let config = ConfigBuilder::new(FileConfig::default(), "").into_config().expect("config");
     let sc = ServerConfig::from(&config);
@@ -639,6 +805,7 @@ fn main() {
     match scenario.as_str() {
         "softstop" => softstop(seed),
         "handover" => handover(seed),
+        "softstop_h2" => softstop_h2(seed),
         other => println!("note invalid-case: unknown scenario {other}"),
     }
     std::process::exit(0);
